@@ -543,6 +543,17 @@ def run_shipped_twin_stage(prop, tier, seed):
                                 'observed_last_line': traces[0]['lines'][-1]}]
 
 
+DOCUMENTED = ('', 'NonDeterminismError', 'ConflictingTransitionsError', 'PreconditionError', 'PostconditionError',
+              'InvariantError', 'PropertyStatechartError')
+
+
+def crashed(exc):
+    """The outcome of a call is neither a normal return nor one of the documented errors (the generated code never
+    raises by itself): Hang, BuildFailed:*, KeyError, TypeError, CodeEvaluationError, ...  Outcomes of the twin
+    constructions (ReimportFailed:*, SnapshotFailed:*) are judged by their own relations."""
+    return exc not in DOCUMENTED and not exc.startswith(('ReimportFailed', 'SnapshotFailed'))
+
+
 def run_stage(prop, tier, seed, stage, rng):
     name = '%s_%s' % (prop, stage['name'])
     charts = stage['charts']
@@ -634,9 +645,10 @@ def run_stage(prop, tier, seed, stage, rng):
                 if b[0] != prop:
                     cross['%s.%s' % (b[0], b[1])] += 1
             exc = t['lines'][ln]['exc']
-            if exc == 'Hang' or exc.startswith('BuildFailed'):
-                # the call (or building the statechart through the public API) did not return / failed although
-                # the model says it returns: no clause of any property can hold for a result that never comes
+            if crashed(exc):
+                # the call (or building the statechart through the public API) did not return, or ended with an
+                # exception that is none of the documented ones, although the model says it returns: no clause of
+                # any property can hold for a result that never comes
                 mine.append([ln + 1, prop, 'returns'])
             if mine:
                 viol.append((dict(t, hist=t['hist'][:ln + 1], lines=t['lines'][:ln + 1]), mine, r))
@@ -769,7 +781,7 @@ def replay_file(prop, path):
     for ln, u in enumerate(traces[0]['uids']):
         allbad += [[ln + 1] + list(b) for b in reports[u]['bad']]
         exc = traces[0]['lines'][ln]['exc']
-        if exc == 'Hang' or exc.startswith('BuildFailed'):
+        if crashed(exc):
             allbad.append([ln + 1, prop, 'returns'])
     print(json.dumps({'failing': allbad}))
     r = {'bad': [b[1:] for b in allbad]}
